@@ -1013,20 +1013,26 @@ func TestVerifC11(t *testing.T) {
 			name(N(false, 0, "ABCD"), c11Int{8, 0x1122334455667788}), name(N(false, 0, "N003"), c11Int{2, 0x1234}),
 			name(N(false, 0, "N004"), c11Int{0, 5}), name(N(false, 0, "N005"), c11Int{4, 9})}),
 		// the program of the non-vacuity example of C11.nested_programs_agree: devices nested three deep with forced PkgLength
-		// widths 1, 2 and 3, the name N000 reused in three scopes
+		// widths 1, 2 and 3, the name N000 reused in three scopes, a string and an empty string
 		c11Hand("b-nested-devices", "", []c11Node{
 			&c11List{kind: "device", w: 1, name: N(false, 0, "DEV0"), kids: []c11Node{name(N(false, 0, "N000"), c11Int{1, 1}),
 				&c11List{kind: "device", w: 2, name: N(false, 0, "DEV1"), kids: []c11Node{name(N(false, 0, "N000"), c11Int{2, 0x1234}),
-					&c11List{kind: "device", w: 3, name: N(false, 0, "DEV2")}}},
+					&c11List{kind: "device", w: 3, name: N(false, 0, "DEV2")}, name(N(false, 0, "S000"), c11Str{[]byte("hi")})}},
 				name(N(false, 0, "N001"), c11Int{0, 0})}},
-			name(N(false, 0, "N000"), c11Int{8, 0x0123456789abcdef})}),
+			name(N(false, 0, "N000"), c11Int{8, 0x0123456789abcdef}), name(N(false, 0, "S000"), c11Str{[]byte{}})}),
 		// the program of the non-vacuity example of C11.multi_table_programs_agree: three tables of the nested fragment
 		c11Hand("b-three-tables-devices", "",
 			[]c11Node{&c11List{kind: "device", w: 1, name: N(false, 0, "DEV0"), kids: []c11Node{name(N(false, 0, "N000"), c11Int{1, 1})}},
-				name(N(false, 0, "N001"), c11Int{0, 1})},
+				name(N(false, 0, "N001"), c11Int{0, 1}),
+				&c11List{kind: "proc", w: 1, name: N(false, 0, "CPU0"), ints: []uint64{1, 0x00000410, 6}, kids: []c11Node{name(N(false, 0, "N000"), c11Int{1, 2})}},
+				&c11List{kind: "power", w: 2, name: N(false, 0, "PWR0"), ints: []uint64{3, 0x0102}, kids: []c11Node{&c11List{kind: "event", name: N(false, 0, "EV00")}}}},
 			[]c11Node{name(N(false, 0, "N002"), c11Int{4, 0xdeadbeef}),
-				&c11List{kind: "device", w: 2, name: N(false, 0, "DEV1"), kids: []c11Node{&c11List{kind: "device", w: 1, name: N(false, 0, "DEV0")}}}},
-			[]c11Node{name(N(false, 0, "N003"), c11Int{0, 7})}),
+				&c11List{kind: "device", w: 2, name: N(false, 0, "DEV1"), kids: []c11Node{&c11List{kind: "device", w: 1, name: N(false, 0, "DEV0")}}},
+				name(N(false, 0, "S002"), c11Str{[]byte("two")})},
+			[]c11Node{name(N(false, 0, "N003"), c11Int{0, 7}),
+				&c11List{kind: "thermal", w: 1, name: N(false, 0, "TZ00"), kids: []c11Node{name(N(false, 0, "N000"), c11Int{1, 3}),
+					&c11List{kind: "event", name: N(false, 0, "EV00")}, &c11List{kind: "mutex", name: N(false, 0, "MX00"), ints: []uint64{3}}}},
+				&c11List{kind: "mutex", name: N(false, 0, "MX00"), ints: []uint64{15}}, &c11List{kind: "event", name: N(false, 0, "EV00")}}),
 		c11Hand("b-device-nesting", "", []c11Node{cont("scope", N(false, 0, "_SB_"), cont("device", N(false, 0, "DEV0"), name(N(false, 0, "_HID"), c11Int{4, 0x0a0cd041}),
 			cont("device", N(false, 0, "DEV1"), name(N(false, 0, "N000"), i1(1)))))}),
 		c11Hand("b-scope-absolute-2seg", "scope-absolute", []c11Node{cont("scope", N(false, 0, "_SB_"), cont("device", N(false, 0, "DEV0"))),
